@@ -11,7 +11,7 @@ s=/tmp/scratch-mut-$$; mkdir -p $s && rsync -a --exclude .git /repo/ $s/repo/
 ( cd $s/repo && patch -s -p1 < "$patch" ) || { echo "PATCH-FAILED $patch"; rm -rf $s; exit 3; }
 if [ -n "$pkg" ]; then
   mod=kernel; case "$pkg" in kbuild*) mod=kbuild; pkg=${pkg#kbuild/};; esac
-  ( cd $s/repo/$mod && go test -vet=off -count=1 ./$pkg >/dev/null 2>&1 ) && echo "repo-tests: pass" || echo "repo-tests: FAIL (mutant would be caught by the existing suite)"
+  ( cd $s/repo/$mod && go test -vet=off -count=1 -timeout 120s ./$pkg >/dev/null 2>&1 ) && echo "repo-tests: pass" || echo "repo-tests: FAIL (mutant would be caught by the existing suite)"
 fi
 out=$(cd /verif && VERIF_REPO=$s/repo bin/vcheck -p $id -tier ${VERIF_TIER:-quick} 2>&1); rc=$?
 rm -rf $s
